@@ -393,7 +393,7 @@ func jsonOf(v interface{}) string {
 func raw(v interface{}) json.RawMessage { b, _ := json.Marshal(v); return b }
 
 func runC09(ctx *Ctx) error {
-	ctx.Res.Rule = "seeded unions (oneOf/anyOf of 1-4 referenced objects incl. names needing normalisation, plus primitive/array/inline members; discriminator none/implicit/explicit/partial/many-to-one; the union's own fixed properties incl. one named like the discriminator; additionalProperties; nested in a property, an array and a map) compiled; every From/As/Merge/Discriminator/ValueByDiscriminator of every union type called through reflection on sample member values; CORR: the case table of ValueByDiscriminator and the values assigned by From* (AST) vs the Lean table; non-trivial = every (union, member) pair"
+	ctx.Res.Rule = "seeded unions (oneOf/anyOf of 1-4 referenced objects incl. names needing normalisation, plus primitive/array/inline members; discriminator none/implicit/explicit/partial/many-to-one; the union's own fixed properties incl. one named like the discriminator; additionalProperties (a fixed member never shows among the additional ones); nested in a property, an array and a map) compiled; every From/As/Merge/Discriminator/ValueByDiscriminator of every union type called through reflection on sample member values; CORR: the case table of ValueByDiscriminator and the values assigned by From* (AST) vs the Lean table; non-trivial = every (union, member) pair"
 	kit, err := NewRunKit(ctx.Work)
 	if err != nil {
 		return err
@@ -619,6 +619,33 @@ func runC09(ctx *Ctx) error {
 					if !jsonEqual(out, jsonOf(want)) {
 						ctx.Res.Violate("merge:"+sig, fmt.Sprintf("From%s then Merge%s gives %s; the overlay of the new member onto the stored one is %s", a, b, out, jsonOf(want)), replay)
 					}
+				}
+			}
+			// a union with fixed and additional properties: after decoding, the fixed member is not among the additional
+			// ones and the extra member is
+			if u.Addl && u.Fixed != "" {
+				o := map[string]interface{}{u.Fixed: "m", "extra_key": "e"}
+				resp, err := d.p.Call(J{"do": "methods", "type": u.Name, "data": jsonOf(o), "steps": []J{
+					{"m": "Get", "args": []json.RawMessage{raw(u.Fixed)}}, {"m": "Get", "args": []json.RawMessage{raw("extra_key")}}}})
+				if err != nil {
+					return err
+				}
+				ctx.Res.Count("additional-vs-fixed")
+				found := func(i int) string {
+					results, _ := resp["results"].([]interface{})
+					if i >= len(results) {
+						return "?"
+					}
+					rm, _ := results[i].(map[string]interface{})
+					vals, _ := rm["values"].([]interface{})
+					if len(vals) != 2 {
+						return "?"
+					}
+					f, _ := vals[1].(map[string]interface{})["json"].(string)
+					return f
+				}
+				if found(0) != "false" || found(1) != "true" {
+					ctx.Res.Violate("additional-vs-fixed:"+sig, fmt.Sprintf("after decoding %s: Get(%q) found=%s (a declared member is no additional one), Get(\"extra_key\") found=%s", jsonOf(o), u.Fixed, found(0), found(1)), replay)
 				}
 			}
 			// dispatch for every mapped value, lossless decode/encode with fixed and additional properties
